@@ -32,6 +32,17 @@ def family(name):
                 out.append(spaces.C('Not', None, [m]))
                 out.append(spaces.C('Imply', None, [m, z]))
         return tuple(out)
+    if parts[0] == 'alt':
+        # the same models with ids renamed so that, sorted by id, atoms and compounds INTERLEAVE under one parent (children are kept
+        # sorted by id; the standard names put every compound before every atom)
+        return tuple(_rename(m, ALT_EXPLICIT) for m in family(parts[1].replace('+', '/')))
+    if parts[0] == 'altg':
+        # generated compound ids ('VAR<sha>'): atoms named to sort on both sides of them
+        return tuple(_rename(m, ALT_GENERATED) for m in family(parts[1].replace('+', '/')))
+    if parts[0] == 'sameid':
+        return tuple(_sameid(parts[1]))
+    if parts[0] == 'mix3b':
+        return tuple(_mix3b(parts[1], parts[2]))
     if parts[0] == 'illdef':
         return tuple(_illdef())
     if parts[0] == 'empty':
@@ -168,6 +179,71 @@ def _mix3(leaves, policy):
             for s in (1, -1):
                 for v in spaces.thresholds(ch, s, clip=6):
                     yield spaces.assign_ids(N(None, s, v, ch), policy)
+
+
+ALT_EXPLICIT = {"A": "n00", "B": "n02", "C": "n04", "D": "n06", "E": "n08", "F": "n10",
+                "a": "n01", "w": "n015", "t": "n025", "b": "n03", "v": "n035", "u": "n045", "c": "n05", "n": "n065", "d": "n07",
+                "x": "n085", "y": "n09", "z": "n095"}
+ALT_GENERATED = {"a": "Aa", "b": "Wb", "c": "Ac", "d": "Wd", "t": "Wt", "u": "Au", "n": "Wn", "x": "Ax", "y": "Wy", "z": "Az", "w": "Ww", "v": "Av"}
+
+
+def _rename(ast, table):
+    def r(i):
+        return table.get(i, i) if isinstance(i, str) else i
+    k = ast[0]
+    if k == 'L':
+        return ('L', r(ast[1]), ast[2], ast[3])
+    if k == 'N':
+        return ('N', r(ast[1]), ast[2], ast[3], tuple(_rename(c, table) for c in ast[4]), ast[5])
+    _, kind, i, args, extra = ast
+    if isinstance(extra, tuple) and extra and extra[0] == 'default':
+        extra = ('default', tuple(r(x) for x in extra[1]))
+    return ('C', kind, r(i), tuple(_rename(c, table) for c in args), extra)
+
+
+def _mix3b(leaves, policy):
+    """Three-children tops with TWO compounds and one atom: X over the first leaf, Y over the second, plus every leaf as the atom."""
+    leaf_ids = _leafids(leaves)
+    lv = [spaces.leaf(i) for i in leaf_ids]
+    for X in spaces.depth1_nodes(leaf_ids[:1], 1):
+        for Y in spaces.depth1_nodes(leaf_ids[1:2], 1):
+            for l in lv:
+                ch = [X, Y, l]
+                for s in (1, -1):
+                    for v in spaces.thresholds(ch, s, clip=6):
+                        yield spaces.assign_ids(N(None, s, v, ch), policy)
+
+
+def _sameid(leaves):
+    """Two DIFFERENT arguments of one connective that carry the SAME id:
+    (1) a depth-1 formula X with an explicit id next to Not(X) (negation keeps a given id), under every two/three-argument connective;
+    (2) generated ids that coincide: the generated id is a digest of the child ids written one after the other, so X over ('ab','c') and
+        Y over ('a','bc') get one id although they are different propositions.
+    Such models are rejected by errors(); their evaluation is still defined (and correct on the unchanged library)."""
+    leaf_ids = _leafids(leaves)
+    z = L('z')
+    pairs = []
+    for X in spaces.conn_d1(leaf_ids[:2], 2):
+        Xn = spaces.C(X[1], "P", X[3], X[4])
+        pairs.append((Xn, spaces.C('Not', None, [Xn])))
+    ab, c, a, bc = L('ab'), L('c'), L('a'), L('bc')
+    for kind in ('All', 'Any', 'Xor'):
+        for kind2 in ('All', 'Any', 'Xor'):
+            pairs.append((spaces.C(kind, None, [ab, c]), spaces.C(kind2, None, [a, bc])))
+    out = []
+    for X, Y in pairs:
+        for args in ([X, Y], [Y, X], [X, Y, z]):
+            out.append(spaces.C('All', None, args))
+            out.append(spaces.C('Any', None, args))
+            out.append(spaces.C('Xor', None, args))
+            out.append(spaces.C('XNor', None, args))
+            for k in range(1, len(args) + 1):
+                out.append(spaces.C('AtLeast', None, args, k))
+                out.append(spaces.C('AtMost', None, args, k - 1))
+        out.append(spaces.C('Imply', None, [X, Y]))
+        out.append(spaces.C('Imply', None, [Y, X]))
+        out.append(spaces.C('Imply', None, [spaces.C('All', None, [X, Y]), z]))
+    return out
 
 
 def _conn3(parts):
